@@ -777,8 +777,10 @@ def check_cfg_linearity(
             live = live_before[succ]
             for x, use_bb in live.items():
                 use_scope = scopes[use_bb]
-                place = use_scope[x]
-                if not place.ty.copyable and (prev_use := scope.used(x)):
+                # Look at the place as it leaves this BB: the BB with the later use might
+                # re-assign it with another (copyable) type after that use
+                if (prev_use := scope.used(x)) and not scope[x].ty.copyable:
+                    place = scope[x]
                     use = use_scope.used_parent[x]
                     # Special case if this is a use arising from the implicit returning
                     # of a borrowed argument
